@@ -46,9 +46,12 @@ ListCases ==
                FA("join", X, <<LS(<<44>>)>>), FA("split", FA("join", X, <<LS(<<44>>)>>), <<LS(<<44>>)>>),
                FA("split", FA("join", X, <<LS(<<45, 45>>)>>), <<LS(<<45, 45>>)>>),       \* multi-character separator
                FA("merge", X, <<Arr(<<LI(7)>>)>>), FA("merge", X, <<X>>), F("length", FA("merge", X, <<X>>))}}
+K(s) == VS(s)
+Maps == {VM(<<>>, <<>>), VM(<<K(<<97>>)>>, <<VI(1)>>), VM(<<K(<<97>>), K(<<98>>)>>, <<VI(1), VI(2)>>),
+         VMg(<<K(<<97>>), K(<<98>>)>>, <<VI(6), VI(5)>>, "msi"), VMg(<<K(<<97>>)>>, <<VS(<<120>>)>>, "mss")}
 \* length == number of loop iterations == elements seen
 CountLoop == <<Set("n", LI(0)), For1("i", X, <<Set("n", Bin("+", Var("n"), LI(1)))>>), PrintS(Var("n")), Text(<<47>>), PrintS(F("length", X))>>
-LoopCases == {[fam |-> "loopcount", x |-> v, e |-> X] : v \in ListVals(MaxList) \cup {VS(s) : s \in Strs(MaxStr)}}
+LoopCases == {[fam |-> "loopcount", x |-> v, e |-> X] : v \in ListVals(MaxList) \cup {VS(s) : s \in Strs(MaxStr)} \cup Maps}
 \* slice on strings and lists: every start / length incl. omitted
 SliceArgs == {<<LI(a)>> : a \in (-SliceRange)..SliceRange} \cup {<<LI(a), LI(b)>> : a \in (-SliceRange)..SliceRange, b \in (-SliceRange)..SliceRange}
 SliceSubjects == {VS(<<104, 233, 108, 108, 111>>), VS(<<97>>), VS(<<>>), VL(<<VI(1), VI(2), VI(3), VI(4)>>), VL(<<>>),
@@ -60,12 +63,9 @@ DefaultSubjects == {Null, VS(<<>>), VS(<<97>>), VS(<<32>>), VI(5), VI(-1), VB(TR
                     VM(<<VS(<<107>>)>>, <<VI(1)>>)}
 DefaultCases == {[fam |-> "default", x |-> v, e |-> FA("default", X, <<LS(<<100>>)>>)] : v \in DefaultSubjects}
                 \cup {[fam |-> "default", x |-> Null, e |-> FA("default", Var("undefinedvar"), <<LI(3)>>)]}
-\* merge on maps (later maps win), keys
-K(s) == VS(s)
-Maps == {VM(<<>>, <<>>), VM(<<K(<<97>>)>>, <<VI(1)>>), VM(<<K(<<97>>), K(<<98>>)>>, <<VI(1), VI(2)>>),
-         VMg(<<K(<<98>>), K(<<97>>)>>, <<VI(5), VI(6)>>, "msi"), VMg(<<K(<<97>>)>>, <<VS(<<120>>)>>, "mss")}
+\* merge on maps (later maps win), keys, first / last / loop count (model maps carry their keys in the order they are walked: sorted)
 MapCases == {[fam |-> "map", x |-> m, e |-> e] : m \in Maps,
-               e \in {F("length", X), F("length", F("keys", X)), F("sort", F("keys", X)),
+               e \in {F("length", X), F("length", F("keys", X)), F("sort", F("keys", X)), F("first", X), F("last", X),
                       FA("merge", X, <<Hash(<<LS(<<97>>)>>, <<LI(9)>>)>>), FA("merge", X, <<Hash(<<LS(<<122>>)>>, <<LI(9)>>)>>),
                       F("length", FA("merge", X, <<X>>)), FA("merge", Hash(<<LS(<<97>>)>>, <<LI(9)>>), <<X>>)}}
 \* abs on ints
